@@ -95,8 +95,8 @@ def rand_delta3(rng):
     return [rng.uniform(-2, 2) for _ in range(3)] + [x / an * n for x in ax]
 
 
-SE2_OPS = ["identity", "construct", "compose", "compose", "ominus", "ominus", "inverse", "boxplus", "boxplus", "iadd", "copy", "matrix", "matrix_product", "matrix_product", "via_disk", "optimize_chain"]
-SE3_OPS = ["identity", "construct", "compose", "compose", "compose", "ominus", "ominus", "inverse", "inverse", "boxplus", "boxplus", "iadd", "copy", "normalize", "via_disk",
+SE2_OPS = ["identity", "scribble_views", "from_file_text", "construct", "compose", "compose", "ominus", "ominus", "inverse", "boxplus", "boxplus", "iadd", "copy", "matrix", "matrix_product", "matrix_product", "via_disk", "optimize_chain"]
+SE3_OPS = ["identity", "scribble_views", "construct", "compose", "compose", "compose", "ominus", "ominus", "inverse", "inverse", "boxplus", "boxplus", "iadd", "copy", "normalize", "via_disk",
            "optimize_chain", "construct_nonunit", "normalize_inplace", "normalize_inplace"]
 
 
@@ -139,7 +139,7 @@ class C11(OptEngineBase):
     PROBES = [
         "angle_eq_pi_returned", "angle_near_minus_pi", "big_angle", "boxplus_norm_gt1_branch", "boxplus_norm_eq1", "w_negative", "w_zero",
         "wild_step_applied", "chain_ge_1e4", "via_disk", "optimize_se2", "optimize_se3", "optimize_nonfinite_skipped", "normalize_checked",
-        "chain_ge_1000", "auto_renormalized", "nonunit_constructed", "normalize_inplace", "unclaimed_nonunit_operand", "matrix_product", "matrix_inverse_product", "angle_given_as_float32", "identity_constructed", "identity_object_as_vertex_pose", "increment_buffer_reused", "operand_type_refused",
+        "chain_ge_1000", "auto_renormalized", "nonunit_constructed", "normalize_inplace", "unclaimed_nonunit_operand", "matrix_product", "matrix_inverse_product", "angle_given_as_float32", "identity_constructed", "identity_object_as_vertex_pose", "increment_buffer_reused", "operand_type_refused", "views_scribbled", "pose_from_file_text",
     ]
 
     def sample_view(self, case):
@@ -175,6 +175,9 @@ class C11(OptEngineBase):
                 if rng.random() < 0.8 or (op == "optimize_chain" and heavy >= 40):
                     op = "compose"
             o = {"op": op, "t": t, "a": rng.randrange(POOL), "b": rng.randrange(POOL), "dst": rng.randrange(POOL)}
+            if op == "from_file_text":
+                o["tag"] = rng.choice(["VERTEX_SE2", "EDGE_SE2", "PARAMS_SE2OFFSET"])
+                o["v"] = fxl([rng.uniform(-10, 10), rng.uniform(-10, 10), rand_angle(rng)])
             if op == "construct" and t == "SE2" and rng.random() < 0.3:
                 o["angle_type"] = rng.choice(["float32", "float32", "np_float64", "int"])
             if op == "construct_nonunit":
@@ -326,7 +329,45 @@ class C11(OptEngineBase):
                     Ea, Ba = m2[a]
                     Eb, Bb = m2[b]
                     r = None
-                    if kind == "identity":
+                    if kind == "scribble_views":
+                        # the caller reads the pose through its accessors and edits what it got back
+                        keep = np.array(pa, copy=True).tobytes()
+                        for name in ("position", "orientation", "to_array", "to_compact"):
+                            val = getattr(pa, name)
+                            val = val() if callable(val) else val
+                            if isinstance(val, np.ndarray) and val.ndim and val.flags.writeable:
+                                val *= 2.0
+                                val += 1.0
+                        res.probe("views_scribbled")
+                        res.n_checks += 1
+                        if np.array(pa).tobytes() != keep:
+                            V(i, "accessor-is-live-view", "editing what position/orientation/to_array/to_compact returned changed the pose to %s" % np.array(pa).tolist())
+                            break
+                        continue
+                    if kind == "from_file_text":
+                        x, y, th = xfl(op["v"])
+                        tag = op.get("tag", "VERTEX_SE2")
+                        if tag == "VERTEX_SE2":
+                            text = "VERTEX_SE2 5 %r %r %r\n" % (x, y, th)
+                        elif tag == "PARAMS_SE2OFFSET":
+                            text = "PARAMS_SE2OFFSET 3 %r %r %r\nVERTEX_SE2 5 0 0 0\n" % (x, y, th)
+                        else:
+                            text = "VERTEX_SE2 1 0 0 0\nVERTEX_SE2 2 0 0 0\nEDGE_SE2 1 2 %r %r %r 1 0 0 1 0 1\n" % (x, y, th)
+                        w.disk.put(PATH, text.encode("ascii"))
+                        g2 = Graph.from_g2o(PATH)
+                        if tag == "VERTEX_SE2":
+                            r = g2._vertices[0].pose
+                        elif tag == "PARAMS_SE2OFFSET":
+                            r = list(g2._g2o_params.values())[0].value
+                        else:
+                            r = g2._edges[0].estimate
+                        res.probe("pose_from_file_text")
+                        if abs(th) > 1e3:
+                            res.probe("big_angle")
+                        tol = 8 * EPS * (abs(th) + 2 * math.pi)
+                        ok = check2(i, r, Fraction(th), tol, None, None, "%s line with angle %r" % (tag, th))
+                        E, B = Fraction(th), tol
+                    elif kind == "identity":
                         r = PoseSE2.identity()
                         res.probe("identity_constructed")
                         res.n_checks += 1
@@ -477,6 +518,20 @@ class C11(OptEngineBase):
                 else:
                     pa, pb = pool3[a], pool3[b]
                     ba, bb = m3[a], m3[b]
+                    if kind == "scribble_views":
+                        keep = np.array(pa, copy=True).tobytes()
+                        for name in ("position", "orientation", "to_array", "to_compact"):
+                            val = getattr(pa, name)
+                            val = val() if callable(val) else val
+                            if isinstance(val, np.ndarray) and val.ndim and val.flags.writeable:
+                                val *= 2.0
+                                val += 1.0
+                        res.probe("views_scribbled")
+                        res.n_checks += 1
+                        if np.array(pa).tobytes() != keep:
+                            V(i, "accessor-is-live-view", "editing what position/orientation/to_array/to_compact returned changed the pose to %s" % np.array(pa).tolist())
+                            break
+                        continue
                     if kind == "identity":
                         r = PoseSE3.identity()
                         res.probe("identity_constructed")
